@@ -127,6 +127,10 @@ class Sim(object):
         elif b == 'other-unit':
             body = self.own_reply(tid, unit, m)
             self.push(F((unit + 1) & 0xFF or 1, body), dict(meta, unit=(unit + 1) & 0xFF or 1, what='other-unit', pdu=body))
+        elif b in ('unit-0', 'unit-255'):
+            u2 = 0 if b == 'unit-0' else 0xFF
+            body = bytes([m['fc'], 4, 0xFA, 0xCE, 0xB0, 0x0C]) if m['fc'] in (3, 4) else self.own_reply(tid, unit, m)
+            self.push(F(u2, body), dict(meta, unit=u2, what='other-unit', pdu=body))
         elif b == 'stale':
             self.push(stale, dict(stale_meta, pdu=stale_src[2]))
         elif b == 'stale+own':
